@@ -484,6 +484,60 @@ def run(R):
                     R.check(st2 == 'ok' and back == want, 'parsed-value-does-not-serialise-back-multi-object-bytes',
                             f'{outer}.{f} holding {count} objects: serialising what the parser returned gives {mon.srepr(back, 50)} ({len(back) if st2 == "ok" else "-"} bytes, want {len(want)})', W)
                     R.case(mon.fp('multiobj', outer, count, rep))
+        # ---- a vector is a sequence: the same elements in a tuple, a range, a dict view, a deque serialise like the list
+        import collections as _coll
+        vec_ctors = [(n, f, t) for n in supported for f, t in ctors[n].fields if t.startswith('(vector ') and '?' not in t][:60]
+        for n, f, t in vec_ctors:
+            try:
+                v = G.obj(ctors[n], 0, True, None)
+            except RecursionError:
+                continue
+            lst = v.get(f)
+            if not isinstance(lst, list) or not lst:
+                continue
+            want = codec.encode(v)
+            forms = [('tuple', tuple(lst)), ('deque', _coll.deque(lst)), ('dict-values', {i: x for i, x in enumerate(lst)}.values())]
+            if all(isinstance(x, int) and not isinstance(x, bool) for x in lst) and lst == list(range(lst[0], lst[0] + len(lst))):
+                forms.append(('range', range(lst[0], lst[0] + len(lst))))
+            for fname, seq in forms:
+                st, got = mon.call(lib_auto.serialize, lib_auto.get_by_name(n), dict(v, **{f: seq}))
+                R.counters['oracle_evaluations'] += 1
+                R.count('vector_container_forms')
+                R.check(st == 'ok' and got == want, f'vector-given-as-{fname}-differs', f'{n}.{f} ({t}) given as a {fname} of {len(lst)} elements: serialised bytes differ from the TL encoding '
+                        f'({mon.srepr(got, 40)})', {'constructor': n, 'field': f, 'form': fname, 'length': len(lst)})
+        iv = [(n, f) for n, f, t in vec_ctors if t in ('(vector int)', '(vector long)')][:3]
+        for n, f in iv:
+            try:
+                v = G.obj(ctors[n], 0, True, None)
+            except RecursionError:
+                continue
+            v[f] = list(range(5, 12))
+            want = codec.encode(v)
+            st, got = mon.call(lib_auto.serialize, lib_auto.get_by_name(n), dict(v, **{f: range(5, 12)}))
+            R.check(st == 'ok' and got == want, 'vector-given-as-range-differs', f'{n}.{f} given as range(5, 12): serialised bytes differ ({mon.srepr(got, 40)})', {'constructor': n, 'field': f})
+            R.count('vector_container_forms')
+        # ---- a nested object (and several) in a bytes field whose serialisation is longer than 64 KiB / 256 KiB comes back as the object, like a short one
+        big_inner = next((n for n in ('liteServer.blockData', 'liteServer.sendMessage', 'adnl.message.custom', 'liteServer.error') if n in ctors and n in supported), None)
+        big_carrier = next(((n, f) for n, f in (('adnl.message.answer', 'answer'), ('liteServer.query', 'data'), ('adnl.message.query', 'query')) if n in ctors), None)
+        if big_inner and big_carrier:
+            bfield = next((f for f, t in ctors[big_inner].fields if t == 'bytes'), None) or next((f for f, t in ctors[big_inner].fields if t == 'string'), None)
+            for size in ((70000, 300000) if quick else (65000, 65536, 70000, 300000, 1 << 20)):
+                inner = G.obj(ctors[big_inner], 1, True, None)
+                payload = G.opaque(size)
+                inner[bfield] = payload if dict(ctors[big_inner].fields)[bfield] == 'bytes' else 'x' * size
+                outer = G.obj(ctors[big_carrier[0]], 1, True, None)
+                outer[big_carrier[1]] = inner
+                want = codec.encode(outer)
+                st, res = mon.call(lib_auto.deserialize, want)
+                R.counters['oracle_evaluations'] += 1
+                R.count('large_nested_objects')
+                gotf = res[0].get(big_carrier[1]) if st == 'ok' and isinstance(res, tuple) and isinstance(res[0], dict) else None
+                R.check(st == 'ok' and res[1] == len(want) and isinstance(gotf, dict) and gotf.get('@type') == big_inner and len(gotf.get(bfield, b'')) == size,
+                        'large-nested-object-not-returned-as-object', f'{big_carrier[0]}.{big_carrier[1]} holding a {big_inner} of about {size} bytes comes back as '
+                        f'{type(gotf).__name__} ({mon.srepr(gotf, 40)}), a short one comes back as the object', {'inner': big_inner, 'size': size})
+                st2, back = mon.call(lib_auto.serialize, lib_auto.get_by_name(big_carrier[0]), outer)
+                R.check(st2 == 'ok' and back == want, 'bytes-differ-large-nested-object', f'{big_carrier[0]} with a nested object of about {size} bytes: serialised bytes differ from the TL encoding',
+                        {'inner': big_inner, 'size': size})
         sdir = _os.path.join(mon.REPO, 'pytoniq_core', 'tl', 'schemas')
         loaded = {}
         for fn in sorted(_os.listdir(sdir)):
@@ -523,6 +577,8 @@ def run(R):
     R.floor('type_forms', 12, 'set')
     if R.shard == 0:
         R.floor('multi_object_bytes_fields_as_list', 10)
+        R.floor('vector_container_forms', 20)
+        R.floor('large_nested_objects', 2)
 
 
 def _blockid(R, BlockId, BlockIdExt, codec, lib, wc, shard, seqno, rh, fh, W):
